@@ -23,6 +23,7 @@ MODULE_TEXT = """FR DEFINITIONS AUTOMATIC TAGS ::= BEGIN
   Bm ::= BMPString
   Un ::= UniversalString
   In ::= INTEGER
+  Ay ::= SEQUENCE { a BOOLEAN, x ANY }
   Lb ::= SEQUENCE OF BOOLEAN
   Li ::= SEQUENCE OF INTEGER (0..255)
   Sb ::= SET OF BOOLEAN
@@ -40,7 +41,7 @@ MODULE_TEXT = """FR DEFINITIONS AUTOMATIC TAGS ::= BEGIN
   Io ::= SEQUENCE { id FR-CLASS.&id({FrSet}), value FR-CLASS.&Type({FrSet}{@id}) }
 END
 """
-DEFS = ["Os", "Ow", "Ox", "Bs", "Ia", "Nu", "Ut", "Bm", "Un", "In", "Lb", "Li", "Sb", "Lx", "Ea", "E0", "Eb", "E1", "Ec", "El", "Ca", "En", "Io"]
+DEFS = ["Os", "Ow", "Ox", "Bs", "Ia", "Nu", "Ut", "Bm", "Un", "In", "Ay", "Lb", "Li", "Sb", "Lx", "Ea", "E0", "Eb", "E1", "Ec", "El", "Ca", "En", "Io"]
 
 
 def module():
@@ -341,6 +342,8 @@ TYPES = [
     string_type("Un", 32, 255),
     # an unconstrained INTEGER of 16K octets and more: all zero, so that the native decoder can keep it
     T("In", 8, 0, lambda n: lenf(8, units(n, 8), 0), lambda u: b"\x02\x01\x00", [("int", 1)], canon_re=False),
+    # ANY_decode_uper: the loop of the strings, behind one bit of the enclosing SEQUENCE
+    T("Ay", 8, 255, lambda n: seq(bits(A_TRUE), lenf(8, units(n, 8), 0)), lambda u: tlv(0x30, b"\x80\x01\xff" + tlv(0xa1, u)), [("str", 1)]),
     T("Lb", 1, 255, lambda n: lenf(1, units(n, 1), 0), lambda u: tlv(0x30, bool_list(u)), [("list", 0)], heavy=True, maxsum=4),
     T("Li", 8, 255, lambda n: lenf(8, units(n, 8), 0), lambda u: tlv(0x30, int_list(u)), [("list", 0)], heavy=True, maxsum=4),
     T("Sb", 1, 255, lambda n: lenf(1, units(n, 1), 0), lambda u: tlv(0x31, bool_list(sorted(x & 1 for x in u))), [("list", 0)], heavy=True, maxsum=3, canon_re=False),
